@@ -16,7 +16,9 @@ package bluemonday
 //@ func (*bluemonday.Policy).init
 //@   requires wfp(p)
 //@   ensures wfp(p) && p.initialized
-//@   modifies r :: r == p && !p.initialized
+//@   ensures !old(p.initialized) ==> fresh(p.elsAndAttrs) && fresh(p.elsMatchingAndAttrs) && fresh(p.globalAttrs) && fresh(p.elsAndStyles) && fresh(p.elsMatchingAndStyles) && fresh(p.globalStyles) && fresh(p.allowURLSchemes) && fresh(p.setOfElementsAllowedWithoutAttrs) && fresh(p.setOfElementsToSkipContent)
+//@   ensures !old(p.initialized) ==> (forall e string :: !(e in p.elsAndAttrs)) && (forall r *regexp.Regexp :: !(r in p.elsMatchingAndAttrs)) && (forall e string :: !(e in p.globalAttrs)) && (forall e string :: !(e in p.allowURLSchemes)) && len(p.allowURLSchemeRegexps) == 0
+//@   modifies p when !p.initialized
 
 //@ func bluemonday.normaliseElementName
 //@   ensures result == normalise(str)
@@ -244,3 +246,70 @@ package bluemonday
 //@   modifies ghost outFailed, outN, outLast, outCount, tzCur, tzPrev, tzErr, sanEl, sanRes
 //@   modifies nothing
 //@   ensures[C15] len(bytes.TrimSpace(b)) == 0 ==> result == b
+
+// ---------------------------------------------------------------------
+// builders (policy.go, helpers.go, policies.go)
+
+//@ func bluemonday.NewPolicy
+//@   ensures result != nil && fresh(result) && wfp(result) && result.initialized
+//@   ensures[C17] fresh(result.elsAndAttrs) && fresh(result.elsMatchingAndAttrs) && fresh(result.globalAttrs) && fresh(result.elsAndStyles) && fresh(result.elsMatchingAndStyles) && fresh(result.globalStyles) && fresh(result.allowURLSchemes) && fresh(result.setOfElementsAllowedWithoutAttrs) && fresh(result.setOfElementsToSkipContent)
+//@   ensures[C04,C17] forall e string :: !(e in result.elsAndAttrs)
+//@   ensures[C04,C17] forall r *regexp.Regexp :: !(r in result.elsMatchingAndAttrs)
+//@   ensures[C04,C17] !result.allowComments && !result.allowUnsafe && !result.addSpaces && !result.allowDataAttributes && !result.requireParseableURLs
+
+//@ func (*bluemonday.Policy).addDefaultElementsWithoutAttrs
+//@   requires wfp(p)
+//@   ensures wfp(p) && p.initialized
+//@   ensures !old(p.initialized) ==> fresh(p.elsAndAttrs) && fresh(p.elsMatchingAndAttrs) && fresh(p.globalAttrs) && fresh(p.elsAndStyles) && fresh(p.elsMatchingAndStyles) && fresh(p.globalStyles) && fresh(p.allowURLSchemes) && fresh(p.setOfElementsAllowedWithoutAttrs) && fresh(p.setOfElementsToSkipContent)
+//@   ensures !old(p.initialized) ==> (forall e string :: !(e in p.elsAndAttrs)) && (forall r *regexp.Regexp :: !(r in p.elsMatchingAndAttrs)) && (forall e string :: !(e in p.globalAttrs)) && (forall e string :: !(e in p.allowURLSchemes)) && len(p.allowURLSchemeRegexps) == 0
+//@   modifies p when !p.initialized
+//@   modifies p.setOfElementsAllowedWithoutAttrs
+
+//@ func (*bluemonday.Policy).addDefaultSkipElementContent
+//@   requires wfp(p)
+//@   ensures wfp(p) && p.initialized
+//@   modifies p when !p.initialized
+//@   modifies p.setOfElementsToSkipContent
+
+//@ func (*bluemonday.Policy).AllowAttrs
+//@   requires wfp(p)
+//@   modifies p when !p.initialized
+//@   ensures wfp(p) && p.initialized && wfb(result) && fresh(result) && result.p == p
+//@   ensures[C17] len(result.attrNames) == len(attrNames) && (forall i int :: 0 <= i && i < len(attrNames) ==> result.attrNames[i] == strings.ToLower(attrNames[i]))
+//@   ensures[C17] result.regexp == nil && !result.allowEmpty
+//@   loop 0 "for _, attrName := range attrNames"
+//@     invariant wfp(p) && p.initialized
+//@     invariant[C17] len(abp.attrNames) == rangeindex + 1 && (forall i int :: 0 <= i && i <= rangeindex ==> abp.attrNames[i] == strings.ToLower(attrNames[i]))
+//@     invariant abp.p == p && abp.regexp == nil && !abp.allowEmpty
+//@     invariant rangeindex < len(attrNames)
+
+//@ func (*bluemonday.Policy).AllowNoAttrs
+//@   requires wfp(p)
+//@   modifies p when !p.initialized
+//@   ensures wfp(p) && p.initialized && wfb(result) && fresh(result) && result.p == p
+//@   ensures[C17] len(result.attrNames) == 0 && result.regexp == nil && result.allowEmpty
+
+//@ func (*bluemonday.attrPolicyBuilder).AllowNoAttrs
+//@   requires wfb(abp)
+//@   modifies abp
+//@   ensures result == abp && wfb(abp) && abp.allowEmpty && abp.regexp == old(abp.regexp) && abp.attrNames == old(abp.attrNames) && abp.p == old(abp.p)
+
+//@ func (*bluemonday.attrPolicyBuilder).Matching
+//@   requires wfb(abp)
+//@   modifies abp
+//@   ensures result == abp && wfb(abp) && abp.regexp == regex && abp.allowEmpty == old(abp.allowEmpty) && abp.attrNames == old(abp.attrNames) && abp.p == old(abp.p)
+
+//@ func (*bluemonday.attrPolicyBuilder).Globally
+//@   requires wfb(abp)
+//@   modifies abp.p.globalAttrs
+//@   ensures result == abp.p && wfp(abp.p) && abp.p.initialized
+//@   ensures[C17] forall a string :: old(a in abp.p.globalAttrs) ==> a in abp.p.globalAttrs
+//@   ensures[C17] forall k int :: 0 <= k && k < len(abp.attrNames) ==> abp.attrNames[k] in abp.p.globalAttrs
+//@   ensures[C17] forall a string, j int :: old(a in abp.p.globalAttrs && 0 <= j && j < len(abp.p.globalAttrs[a])) ==> j < len(abp.p.globalAttrs[a]) && abp.p.globalAttrs[a][j] == old(abp.p.globalAttrs[a][j])
+//@   loop 0 "for _, attr := range abp.attrNames"
+//@     invariant wfb(abp) && abp.p == old(abp.p) && abp.p.globalAttrs == old(abp.p.globalAttrs) && abp.attrNames == old(abp.attrNames) && abp.regexp == old(abp.regexp)
+//@     invariant forall i int :: 0 <= i && i < len(abp.attrNames) ==> abp.attrNames[i] == pre(abp.attrNames[i])
+//@     invariant[C17] forall a string :: old(a in abp.p.globalAttrs) ==> a in abp.p.globalAttrs
+//@     invariant[C17] forall k int :: 0 <= k && k <= rangeindex ==> abp.attrNames[k] in abp.p.globalAttrs
+//@     invariant[C17] forall a string, j int :: old(a in abp.p.globalAttrs && 0 <= j && j < len(abp.p.globalAttrs[a])) ==> j < len(abp.p.globalAttrs[a]) && abp.p.globalAttrs[a][j] == old(abp.p.globalAttrs[a][j])
+//@     invariant forall a string :: a in abp.p.globalAttrs ==> arr(abp.p.globalAttrs[a]) == nil || allocated(arr(abp.p.globalAttrs[a]))
